@@ -394,6 +394,7 @@ type astCallSite struct {
 type newParam struct {
 	Key string
 	Idx int // -1: receiver
+	Variadic bool
 }
 
 func (w *World) buildASTNewIndex() {
@@ -418,7 +419,7 @@ func (w *World) buildASTNewIndex() {
 				for _, f := range fi.Decl.Recv.List {
 					for _, n := range f.Names {
 						if o := info.Defs[n]; o != nil {
-							w.newParams[o] = newParam{k, -1}
+							w.newParams[o] = newParam{Key: k, Idx: -1}
 						}
 					}
 				}
@@ -428,9 +429,10 @@ func (w *World) buildASTNewIndex() {
 				if len(f.Names) == 0 {
 					i++
 				}
+				_, isVariadic := f.Type.(*ast.Ellipsis)
 				for _, n := range f.Names {
 					if o := info.Defs[n]; o != nil {
-						w.newParams[o] = newParam{k, i}
+						w.newParams[o] = newParam{Key: k, Idx: i, Variadic: isVariadic}
 					}
 					i++
 				}
@@ -515,10 +517,21 @@ func (w *World) argsBoundTo(o types.Object) ([]astCallSite, []ast.Expr, bool) {
 			}
 			continue
 		}
+		if np.Variadic && !s.Call.Ellipsis.IsValid() {
+			// `...T`: every argument from this position on (none at all: the parameter is an empty list there)
+			for _, a := range s.Call.Args[min(np.Idx, len(s.Call.Args)):] {
+				sites = append(sites, s)
+				exprs = append(exprs, a)
+			}
+			continue
+		}
 		if np.Idx < len(s.Call.Args) {
 			sites = append(sites, s)
 			exprs = append(exprs, s.Call.Args[np.Idx])
 		}
+	}
+	if np.Variadic {
+		return sites, exprs, len(w.sitesForHost(w.astSites[np.Key])) > 0
 	}
 	return sites, exprs, len(sites) > 0
 }
@@ -1019,7 +1032,7 @@ func (w *World) originValues(v ssa.Value) []ssa.Value {
 // isPlumbingCall: standard-library calls that only move a collection around (keys of a map,
 // a sorted or cloned copy, an iterator): they decide nothing about an element.
 func isPlumbingCall(name string) bool {
-	for _, p := range []string{"builtin.append", "builtin.make", "builtin.copy", "builtin.new", "common.MapKeys", "common.MapValues", "maps.Keys", "maps.Values", "maps.All", "slices.Sorted", "slices.Collect", "slices.Clone", "slices.Values", "slices.All", "func:"} {
+	for _, p := range []string{"builtin.append", "builtin.make", "builtin.copy", "builtin.new", "common.MapKeys", "common.MapValues", "maps.Keys", "maps.Values", "maps.All", "slices.Sorted", "slices.Collect", "slices.Clone", "slices.Values", "slices.All", "slices.Contains", "slices.Index", "slices.ContainsFunc", "slices.IndexFunc", "slices.Backward", "func:"} {
 		if strings.HasPrefix(name, p) {
 			return true
 		}
